@@ -15,8 +15,8 @@ def plan(tier):
         ll = ctr_vec_ll(c, v); base = {'CIPHER': c, 'VEC': v, 'NR': 1}
         # --- encrypt step from related states
         if tier == 'quick':
-            pts = [(-1, 0, n) for n in (0, 1, blk, blk + 1, B, B + 1, 2 * B + 1)]
-            pts += [(a, w, n) for (a, w) in ((0, 1), (1, 0), (L - 1, blk - 1), (L - 1, 0), (L // 2, blk // 2)) for n in (1, blk - w if w else blk, blk + 1, B, B + blk + 1)]
+            pts = [(-1, 0, n) for n in ((0, 1, blk + 1, B + 1) if c != 3 else (0, 1, blk + 1))]
+            pts += [(a, w, n) for (a, w) in ((0, 1), (L - 1, blk - 1), (L // 2, 0)) for n in ((1, blk + 1, B + blk + 1) if c != 3 else (1, blk + 1))]
         else:
             pts = [(-1, 0, n) for n in list(range(0, 2 * blk + 2)) + [B - 1, B, B + 1, 2 * B, 2 * B + 1, 2 * B + blk]]
             pts += [(a, w, n) for a in range(0, L) for w in (0, 1, blk // 2, blk - 1) for n in (0, 1, blk - 1, blk, blk + 1, B - 1, B, B + 1, 2 * B + 1)]
@@ -34,8 +34,8 @@ def plan(tier):
         qs.append(Q('setctr:%s:null' % name, 'c06.c', 'set_counter(NULL, n): same on both back ends', defs=dict(base, OB_SETCTR=1, LEN=blk, NULLCTR=1), ll=ll, timeout=600, fsarray=1300, sanitize=True))
         qs.append(Q('init:%s' % name, 'c06.c', 'after init both back ends are related (counter 0, nothing buffered)', defs=dict(base, OB_INIT=1), ll=ll, timeout=600, fsarray=1300, sanitize=True))
         # --- key / tweak change
-        ops = [(1, 'set_key', [16] if c == 3 else [blk, 2 * blk, 3 * blk, blk - 1])]
-        if c != 3: ops += [(2, 'set_tweaked_key', [blk, 2 * blk, 2 * blk + 1]), (3, 'set_tweak', [1, blk, blk + 1, 0])]
+        ops = [(1, 'set_key', [16] if c == 3 else ([blk, 3 * blk, blk - 1] if tier == 'quick' else [blk, 2 * blk, 3 * blk, blk - 1]))]
+        if c != 3: ops += [(2, 'set_tweaked_key', [blk, 2 * blk + 1] if tier == 'quick' else [blk, 2 * blk, 2 * blk + 1]), (3, 'set_tweak', [1, blk + 1] if tier == 'quick' else [1, blk, blk + 1, 0])]
         else: ops += [(3, 'set_tweak', [8, 7])]
         for op, oname, lens in ops:
             for kl in lens:
